@@ -256,3 +256,12 @@ Proof.
   unfold cell_skel. cbn [skel_clean forallb]. fold (skel_clean (cell_body_skel (hc_value c) ++ [KEnd tag_td])).
   rewrite skel_clean_app, cell_body_skel_clean. reflexivity.
 Qed.
+
+Theorem cell_skeleton_all c prefix h h' :
+  val_ok prefix -> render_cell c prefix = Ok h -> render_cell (alpha_cell c) prefix = Ok h' ->
+  tag_skeleton (tokenize h) = tag_skeleton (tokenize h') /\
+  tag_skeleton (tokenize h) = cell_skel c /\ skel_clean (cell_skel c) = true.
+Proof.
+  intros Hp H H'. split; [exact (cell_skeleton_twin c prefix h h' Hp H H')|].
+  split; [exact (cell_skeleton c prefix h Hp H) | exact (cell_skel_clean c)].
+Qed.
